@@ -267,7 +267,7 @@ def plan(tier, seed):
         jobs.append({"sub": "pdag_exh", "p": p, "shard": 0, "nshards": 1, "seed": seed, "cost": 1})
     for k in range(16):
         jobs.append({"sub": "pdag_exh", "p": 4, "shard": k, "nshards": 16, "seed": seed, "cost": 10})
-    n = scaled(1600 if tier == "quick" else 50000)
+    n = scaled(4800 if tier == "quick" else 80000)
     shards = 16 if tier == "quick" else 64
     for k in range(shards):
         jobs.append({"sub": "hyp", "seed": seed, "shard": k, "n": max(1, n // shards), "cost": 8})
